@@ -63,7 +63,7 @@ pub fn alloc_window_end() -> (i64, u64) {
 }
 
 /// Run harness-internal bookkeeping with allocation counting suspended.
-fn uncounted<R>(f: impl FnOnce() -> R) -> R {
+pub fn uncounted<R>(f: impl FnOnce() -> R) -> R {
     let was = ALLOC_ON.with(|o| o.replace(false));
     let r = f();
     ALLOC_ON.with(|o| o.set(was));
@@ -117,8 +117,14 @@ pub fn anomalies() -> Vec<String> {
     uncounted(|| HOST.with(|h| h.borrow().anomalies.clone()))
 }
 
-fn log(ev: Ev) {
-    uncounted(|| HOST.with(|h| h.borrow_mut().log.push(ev)))
+fn log_with(f: impl FnOnce() -> Ev) {
+    uncounted(|| {
+        let ev = f();
+        if std::env::var_os("VERIF_TRACE").is_some() {
+            eprintln!("host: {}", crate::model::show_ev(&ev));
+        }
+        HOST.with(|h| h.borrow_mut().log.push(ev))
+    })
 }
 
 fn input(k: u32) -> u64 {
@@ -254,7 +260,7 @@ macro_rules! scalar_io {
                 roto::location!()).unwrap().into());
             $lib.add(roto::Function::new(
                 concat!("out_", $name), "", vec!["v"],
-                (|v: $t| { log(Ev::Out(($conv)(v))); }) as fn($t),
+                (|v: $t| { log_with(|| Ev::Out(($conv)(v))); }) as fn($t),
                 roto::location!()).unwrap().into());
         )*
     };
@@ -291,23 +297,23 @@ pub fn build_runtime() -> Runtime<roto::NoCtx> {
             match decode_input("String", input(k)) { V::Str(s) => RotoString::from(s), _ => RotoString::from("") }
         }
         fn out_String(v: RotoString) {
-            log(Ev::Out(V::Str(v.to_string())));
+            log_with(|| Ev::Out(V::Str(v.to_string())));
         }
         fn out_unit() {
-            log(Ev::Out(V::Unit));
+            log_with(|| Ev::Out(V::Unit));
         }
 
         /// effect markers
         fn e(k: i32) -> i32 {
-            log(Ev::Eff("e".into(), vec![V::i32(k)]));
+            log_with(|| Ev::Eff("e".into(), vec![V::i32(k)]));
             k
         }
         fn eb(k: i32, b: bool) -> bool {
-            log(Ev::Eff("eb".into(), vec![V::i32(k), V::Bool(b)]));
+            log_with(|| Ev::Eff("eb".into(), vec![V::i32(k), V::Bool(b)]));
             b
         }
         fn es(k: i32) -> RotoString {
-            log(Ev::Eff("es".into(), vec![V::i32(k)]));
+            log_with(|| Ev::Eff("es".into(), vec![V::i32(k)]));
             RotoString::from(format!("s{k}"))
         }
 
@@ -317,7 +323,7 @@ pub fn build_runtime() -> Runtime<roto::NoCtx> {
         #[copy] type T8 = Val<T8>;
 
         fn et(k: i32) -> Val<Tr> {
-            log(Ev::Eff("et".into(), vec![V::i32(k)]));
+            log_with(|| Ev::Eff("et".into(), vec![V::i32(k)]));
             Val(Tr::new(k))
         }
         fn mk(k: i32) -> Val<Tr> {
@@ -334,16 +340,16 @@ pub fn build_runtime() -> Runtime<roto::NoCtx> {
         }
         fn out_Tr(v: Val<Tr>) {
             v.0.touch("out_Tr");
-            log(Ev::Out(V::Tr(v.0.tag as i32)));
+            log_with(|| Ev::Out(V::Tr(v.0.tag as i32)));
         }
         fn out_Tz(_v: Val<Tz>) {
-            log(Ev::Out(V::Tz));
+            log_with(|| Ev::Out(V::Tz));
         }
         fn out_Tc(v: Val<Tc>) {
-            log(Ev::Out(V::Tc(v.0.0, v.0.1, v.0.2)));
+            log_with(|| Ev::Out(V::Tc(v.0.0, v.0.1, v.0.2)));
         }
         fn out_T8(v: Val<T8>) {
-            log(Ev::Out(V::T8(v.0.0)));
+            log_with(|| Ev::Out(V::T8(v.0.0)));
         }
 
         impl Val<Tr> {
@@ -354,7 +360,7 @@ pub fn build_runtime() -> Runtime<roto::NoCtx> {
             fn m(self, a: i32, b: i32) -> i32 {
                 self.0.touch("m");
                 let t = self.0.tag as i32;
-                log(Ev::Eff("Tr.m".into(), vec![V::i32(t), V::i32(a), V::i32(b)]));
+                log_with(|| Ev::Eff("Tr.m".into(), vec![V::i32(t), V::i32(a), V::i32(b)]));
                 t.wrapping_add(a).wrapping_add(b)
             }
             fn to_string(self) -> RotoString {
